@@ -88,6 +88,15 @@ type State struct {
 	tainted string // non-empty: path left the supported subset (reason)
 	names   map[string]string // term -> name given to it on this path
 	lits    map[string]bool   // facts assumed on this path (for syntactic branch pruning)
+	cells   []cellRec         // scalar cells (locals whose address is taken: captured variables) allocated on this path
+}
+
+// cellRec: one `new T (x)` of a non-struct, non-array local. A callee cannot reach such a cell unless its
+// address escapes (see cellPrivate), so a callee's whole-array `modifies cell.<sort>` leaves it alone.
+type cellRec struct {
+	ptr   string
+	es    string
+	alloc *ssa.Alloc
 }
 
 func (st *State) clone() *State {
@@ -105,6 +114,7 @@ func (st *State) clone() *State {
 		n.frames[i] = f.clone()
 	}
 	n.path = append([]string(nil), st.path...)
+	n.cells = append([]cellRec(nil), st.cells...)
 	n.names = make(map[string]string, len(st.names))
 	for k, v := range st.names {
 		n.names[k] = v
@@ -233,6 +243,8 @@ func (st *State) havocG(name string) string {
 type Exec struct {
 	v         *Verifier
 	lastAfterIns ssa.Instruction // call whose after-clauses were applied by applyContract
+	privCache    map[*ssa.Alloc]bool
+	pendingEsc   []Val // the closure being called directly (its captured cells are havocked like an escaping closure's)
 	fn        *ssa.Function
 	con       *Contract
 	syms      map[string]string // symbol -> sort
